@@ -33,7 +33,7 @@ DefaultStatus(name, fl) ==
 \* what the service method does / what is wrong with the request
 Outcomes ==
   [kind: {"declared", "wrapped"}, name: Names, flags: {NoFlags}]
-  \cup [kind: {"service"}, name: {"zz"}, flags: FlagRec]
+  \cup [kind: {"service", "joined"}, name: {"zz"}, flags: FlagRec]      \* joined: errors.Join(plain, serviceError)
   \cup [kind: {"plain"}, name: {"-"}, flags: {NoFlags}]
   \cup [kind: {"decode"}, name: {"missing_body", "malformed_body", "bad_param", "bad_media_type"}, flags: {NoFlags}]
 
@@ -67,7 +67,7 @@ ServerEncode ==
             /\ status' = e.status
             /\ goaerr' = IF "server.no_goa_error_header" \in Deviations THEN "none" ELSE e.name      \* hypothetical (vacuity guard)
             /\ bodyname' = e.name /\ bodyflags' = e.flags
-       [] outcome.kind = "service" ->
+       [] outcome.kind \in {"service", "joined"} ->
             /\ status' = DefaultStatus(outcome.name, outcome.flags) /\ goaerr' = "none"
             /\ bodyname' = outcome.name /\ bodyflags' = outcome.flags
        [] outcome.kind = "plain" ->
@@ -104,7 +104,7 @@ DeclaredRoundTrip == pc = "done" /\ outcome.kind \in {"declared", "wrapped"} =>
    /\ ckind = "declared" /\ cname = outcome.name /\ cflags = Entry(outcome.name).flags
 DefaultMapping == pc = "done" =>
    /\ (outcome.kind = "plain" => status = 500 /\ bodyflags.f /\ bodyname = "fault")
-   /\ (outcome.kind = "service" => status = DefaultStatus(outcome.name, outcome.flags) /\ bodyname = outcome.name /\ bodyflags = outcome.flags)
+   /\ (outcome.kind \in {"service", "joined"} => status = DefaultStatus(outcome.name, outcome.flags) /\ bodyname = outcome.name /\ bodyflags = outcome.flags)
    /\ (outcome.kind = "decode" => status \in {400, 415} /\ bodyname \in {"missing_payload", "decode_payload", "invalid_field_type", "unsupported_media_type"})
 ExactlyOneResponse == pc \in {"client", "done"} => writes = 1
 \* (what the client hands back for an undeclared error is not part of the property: when its status
